@@ -1,6 +1,6 @@
 (* C11 ReadIndex (ReadOnlySafe), node-local half. *)
 From Coq Require Import List NArith.
-From RaftV Require Safety ReadIndex.
+From RaftV Require Safety SafetyEx ReadIndex ReadIndexEx.
 From RaftV Require Import Base Types Quorum Progress Tracker Storage Log Raft RawNode QuorumProofs RaftMono RaftRouting NodeProps PreVoteProofs LocalProofs FlowProofs LogProofs ConfProofs.
 Import ListNotations.
 Open Scope N_scope.
@@ -11,6 +11,19 @@ Theorem C11_postponed_until_own_term_commit : forall st r m r' e,
   r' = set_r_pending_read_index r (r_pending_read_index r ++ [m]).
 Proof. exact read_index_postponed. Qed.
 Print Assumptions C11_postponed_until_own_term_commit.
+
+(* the sole-voter shortcut is for the sole voter only (F12 repair): a leader that is not a voter of
+   its configuration queues the request and starts a heartbeat round *)
+Theorem C11_non_voter_leader_asks_quorum : forall r m r',
+  existsb (N.eqb (r_id r)) (c_voters (t_config (r_trk r))) = false ->
+  ro_option (r_read_only r) = ReadOnlySafe ->
+  send_msg_read_index_response r m = Ok r' ->
+  exists ro,
+    ro_recv_ack (ro_add_request (r_read_only r) (l_committed (r_log r)) m) (r_id r)
+                (ro_heartbeat_ctx (ro_add_request (r_read_only r) (l_committed (r_log r)) m)) = Ok ro /\
+    bcast_heartbeat (set_r_read_only r ro) = Ok r'.
+Proof. exact non_voter_leader_asks_quorum. Qed.
+Print Assumptions C11_non_voter_leader_asks_quorum.
 
 Theorem C11_confirmed_by_quorum : forall ro c0 c1 ro' out,
   ro_maybe_advance ro c0 c1 = Ok (ro', out) ->
@@ -44,3 +57,10 @@ Theorem C11_read_index_covers_protocol : forall vs p r,
     exists i e, In (i, e, ReadIndex.rd_term r) (ReadIndex.rd_c0 r) /\ (i' <= i)%nat.
 Proof. exact ReadIndex.read_index_covers. Qed.
 Print Assumptions C11_read_index_covers_protocol.
+
+(* the premises are satisfiable (Spec/ReadIndexEx.v): an execution with a served read *)
+Theorem C11_protocol_nonvacuous :
+  exists p r, ReadIndex.rreach SafetyEx.vs3 p /\ In r (snd p) /\
+              Safety.majority SafetyEx.vs3 (ReadIndex.has_acker r) /\ ReadIndex.rd_c0 r <> [].
+Proof. exact ReadIndexEx.read_index_nonvacuous. Qed.
+Print Assumptions C11_protocol_nonvacuous.
